@@ -81,7 +81,7 @@ func exactEvent(e *gostatsd.Event, given bool) string {
 
 func (c14) Run(e *Env) {
 	e.ProbeDecl("non-finite-value", "empty-tags", "empty-source", "same-set-name-two-tagsets", "sampled-timer", "event", "retry-after-5xx", "post-built-while-other-backs-off", "damaged-in-flight", "damaged-compressed-then-valid",
-		"damage-decoded-anyway", "lost-response-duplicate", "huge-values", "redirected-to-other-node", "very-large-flush", "body-cut-short", "body-cut-at-field-boundary")
+		"damage-decoded-anyway", "lost-response-duplicate", "huge-values", "redirected-to-other-node", "very-large-flush", "body-cut-short", "body-cut-at-field-boundary", "unusual-sampled-count", "all-default-event")
 	compType := []string{"none", "zlib", "lz4"}[e.Draw(3)]
 	level := e.Draw(10)
 	v := viper.New()
@@ -91,6 +91,9 @@ func (c14) Run(e *Env) {
 	v.Set("http-transport.compress", compType != "none")
 	if compType != "none" {
 		v.Set("http-transport.compression-type", compType)
+	} else if e.Bool() {
+		// compression switched off, a compression type still configured
+		v.Set("http-transport.compression-type", []string{"zlib", "lz4"}[e.Draw(2)])
 	}
 	v.Set("http-transport.compression-level", level)
 	v.Set("http-transport.max-request-elapsed-time", 30*time.Second)
@@ -162,6 +165,8 @@ func (c14) Run(e *Env) {
 	genBatch := func() *gostatsd.MetricMap {
 		mm := gostatsd.NewMetricMap(false)
 		setNames := map[string]map[string]bool{}
+		var oddName, oddKey string
+		var oddCount float64
 		for i, n := 0, e.Range(1, 6); i < n; i++ {
 			item++
 			m := &gostatsd.Metric{Name: names[e.Draw(len(names))], Rate: 1, Source: gostatsd.Source(srcs[e.Draw(len(srcs))]), Timestamp: gostatsd.Nanotime(item)}
@@ -185,6 +190,9 @@ func (c14) Run(e *Env) {
 			switch e.Draw(4) {
 			case 0:
 				m.Type, m.Value = gostatsd.COUNTER, float64(item*7-20)
+				if e.Chance(1, 6) {
+					m.Value = 0 // a counter that adds up to nothing is a datapoint all the same
+				}
 			case 1:
 				m.Type, m.Value = gostatsd.GAUGE, val
 			case 2:
@@ -192,6 +200,11 @@ func (c14) Run(e *Env) {
 				m.Rate = []float64{1, 0.5, 0.1}[e.Draw(3)]
 				if m.Rate != 1 {
 					e.Probe("sampled-timer")
+				}
+				if e.Chance(1, 5) {
+					// sampled counts a parser never produces, a merged or http-ingested map may hold
+					oddName, oddKey = m.Name, gostatsd.FormatTagsKey(m.Source, m.Tags)
+					oddCount = []float64{0, -1, 2.5, math.Inf(1), math.NaN()}[e.Draw(5)]
 				}
 			case 3:
 				m.Type, m.StringValue = gostatsd.SET, fmt.Sprintf("mem-%d-é", item)
@@ -205,6 +218,12 @@ func (c14) Run(e *Env) {
 				}
 			}
 			mm.Receive(m)
+			if t, ok := mm.Timers[oddName][oddKey]; ok && oddName != "" {
+				t.SampledCount = oddCount
+				mm.Timers[oddName][oddKey] = t
+				e.Probe("unusual-sampled-count")
+			}
+			oddName = ""
 		}
 		if hugeLeft > 0 {
 			hugeLeft--
@@ -219,7 +238,14 @@ func (c14) Run(e *Env) {
 		mm.Receive(&gostatsd.Metric{Name: "marker", Type: gostatsd.COUNTER, Value: float64(item), Rate: 1, Timestamp: gostatsd.Nanotime(item)})
 		return mm
 	}
+	blankUsed := false
 	genEvent := func() *gostatsd.Event {
+		if !blankUsed && e.Chance(1, 8) {
+			// every field at its default: the protobuf encoding of this event has no bytes at all
+			blankUsed = true
+			e.Probe("all-default-event")
+			return &gostatsd.Event{}
+		}
 		item++
 		ev := &gostatsd.Event{Title: fmt.Sprintf("event %d ✓", item), Text: []string{"", "text", "multi\nline", "tab\tand \"quotes\""}[e.Draw(4)], DateHappened: int64(e.Draw(3)) * 1700000000,
 			AggregationKey: []string{"", "agg"}[e.Draw(2)], SourceTypeName: []string{"", "src"}[e.Draw(2)], Source: gostatsd.Source(srcs[e.Draw(len(srcs))]),
